@@ -88,6 +88,7 @@ func Interval(interval time.Duration) Observable[int64] {
 		done := make(chan struct{})
 
 		go recoverUnhandledError(func() {
+			verifPoint("interval.goroutine-start")
 			defer destination.CompleteWithContext(ctx)
 			value := int64(0)
 
@@ -137,6 +138,7 @@ func IntervalWithInitial(initial, interval time.Duration) Observable[int64] {
 		}
 
 		go recoverUnhandledError(func() {
+			verifPoint("intervalinitial.goroutine-start")
 			defer destination.CompleteWithContext(ctx)
 
 			for {
